@@ -187,28 +187,28 @@ class ValidateBeforeSave:
         return not config_valid(config)
 
 
-@contract(CF + "_write_yaml_config", props=["C20"], types=dict(config=Dict, path=PathT, f=FileT), raises=["OSError", "YAMLError"],
+@contract(CF + "_write_yaml_config", no_selftest=True, props=["C20"], types=dict(config=Dict, path=PathT, f=FileT), raises=["OSError", "YAMLError"],
           effects=["fs_write"])
 class WriteYamlConfig:
     def ensures(config, path):
         return True
 
 
-@contract(CF + "_write_json_config", props=["C20"], types=dict(config=Dict, path=PathT, f=FileT), raises=["OSError", "TypeError"],
+@contract(CF + "_write_json_config", no_selftest=True, props=["C20"], types=dict(config=Dict, path=PathT, f=FileT), raises=["OSError", "TypeError"],
           effects=["fs_write"])
 class WriteJsonConfig:
     def ensures(config, path):
         return True
 
 
-@contract(CF + "_write_config_file", props=["C20"], types=dict(config=Dict, path=PathT),
+@contract(CF + "_write_config_file", no_selftest=True, props=["C20"], types=dict(config=Dict, path=PathT),
           raises=["ConfigError", "OSError", "YAMLError", "TypeError"], effects=["fs_write"])
 class WriteConfigFile:
     def on_raise_unsupported_suffix_writes_nothing(path, exc_class, effects):
         return implies(path.suffix not in (".yaml", ".yml", ".json"), exc_class == "ConfigError" and "fs_write" not in effects)
 
 
-@contract(CF + "_write_and_log_config", props=["C20"], types=dict(config=Dict, path=PathT), raises=["ConfigError"],
+@contract(CF + "_write_and_log_config", no_selftest=True, props=["C20"], types=dict(config=Dict, path=PathT), raises=["ConfigError"],
           effects=["fs_write"])
 class WriteAndLogConfig:
     """Every failure of the write is reported as ConfigError."""
@@ -217,7 +217,7 @@ class WriteAndLogConfig:
         return True
 
 
-@contract(CF + "save_config", props=["C20"], types=dict(config=Dict, config_path=Opt(PathT), path=PathT),
+@contract(CF + "save_config", no_selftest=True, props=["C20"], types=dict(config=Dict, config_path=Opt(PathT), path=PathT),
           raises=["ConfigError", "OSError"], effects=["fs_mkdir", "fs_write"])
 class SaveConfig:
     def requires(config, config_path):
@@ -258,7 +258,7 @@ class ValidateAndReportErrors:
         return True
 
 
-@contract(CC + "_save_and_report_success", props=["C20"],
+@contract(CC + "_save_and_report_success", no_selftest=True, props=["C20"],
           types=dict(cfg=Dict, key=Str, value=Any, config_path=Opt(PathT), verbose=Bool), raises=["ConfigError", "OSError"],
           modifies=["stdout"], effects=["fs_mkdir", "fs_write"])
 class SaveAndReportSuccess:
@@ -269,7 +269,7 @@ class SaveAndReportSuccess:
         return config_valid(cfg)
 
 
-@contract(CC + "config_set", props=["C20"],
+@contract(CC + "config_set", no_selftest=True, props=["C20"],
           types=dict(ctx=ClickCtxT, key=Str, value=Str, cfg=Dict, converted_value=Any, config_path=Opt(PathT), verbose=Bool),
           raises=["SystemExit", "OSError"], modifies=["ctx.obj.config", "stdout", "stderr"], effects=["fs_mkdir", "fs_write"],
           exc=Int)
@@ -293,7 +293,7 @@ class ConfigSet:
         return implies(exc_class == "SystemExit", exc == 1)
 
 
-@contract(CC + "config_get", props=["C20"], types=dict(ctx=ClickCtxT, key=Str, cfg=Dict), raises=["SystemExit"],
+@contract(CC + "config_get", no_selftest=True, props=["C20"], types=dict(ctx=ClickCtxT, key=Str, cfg=Dict), raises=["SystemExit"],
           modifies=["stdout", "stderr"], effects=[], exc=Int)
 class ConfigGet:
     """`thailint config get KEY` prints cfg[KEY] unchanged (one line on stdout), exits 1 for an unknown key."""
